@@ -881,10 +881,10 @@ pub fn oracle_level_checks(run: &E1Run, rng: &mut Rng, oracle: &mut Oracle) -> (
             let b = oracle.query(&logged, ORACLE_STACK_KB);
             n += 1;
             let expect_emitted = match &a.res {
-                Res::Ok(text) => format!("{}{}\n", a.emitted, text),
-                _ => a.emitted.clone(),
+                Res::Ok(text) => format!("{}{}\n", a.out(), text),
+                _ => a.out(),
             };
-            if a.res != b.res || b.emitted != expect_emitted {
+            if a.res != b.res || b.out() != expect_emitted {
                 v.push(Violation {
                     property: "C17".into(),
                     class: "log-is-not-identity-plus-one-line".into(),
@@ -892,7 +892,7 @@ pub fn oracle_level_checks(run: &E1Run, rng: &mut Rng, oracle: &mut Oracle) -> (
                     op_idx: 0,
                     op: Some(logged),
                     expected: format!("{} emitting {:?}", res_text(&a.res), expect_emitted),
-                    got: format!("{} emitting {:?}", res_text(&b.res), b.emitted),
+                    got: format!("{} emitting {:?}", res_text(&b.res), b.out()),
                     needs: "input-only".into(),
                 });
             }
@@ -909,7 +909,13 @@ pub fn oracle_level_checks(run: &E1Run, rng: &mut Rng, oracle: &mut Oracle) -> (
             let b = oracle.query(&plain, ORACLE_STACK_KB);
             n += 1;
             let budget = |r: &Res| matches!(r, Res::Crash(m) if m.starts_with("over-budget"));
-            if a.res != b.res && !budget(&a.res) && !budget(&b.res) {
+            // error messages quote fragments of the rule, so only "same value" / "both fail" is comparable
+            let same = match (&a.res, &b.res) {
+                (Res::Ok(x), Res::Ok(y)) => x == y,
+                (Res::Err(_), Res::Err(_)) => true,
+                (x, y) => x == y,
+            };
+            if !same && !budget(&a.res) && !budget(&b.res) {
                 v.push(Violation {
                     property: "C17".into(),
                     class: "log-changes-the-result".into(),
@@ -931,7 +937,7 @@ pub fn oracle_level_checks(run: &E1Run, rng: &mut Rng, oracle: &mut Oracle) -> (
         if logs > 0 && !iterates && !op.args[1].contains("\"log\"") {
             let a = oracle.query(op, ORACLE_STACK_KB);
             n += 1;
-            if a.emits > logs as u64 {
+            if log_lines(&a.out()) > logs {
                 v.push(Violation {
                     property: "C17".into(),
                     class: "more-log-lines-than-log-operators".into(),
@@ -939,7 +945,7 @@ pub fn oracle_level_checks(run: &E1Run, rng: &mut Rng, oracle: &mut Oracle) -> (
                     op_idx: 0,
                     op: Some(op.clone()),
                     expected: format!("at most {} line(s): the rule holds {} `log` operator(s) and no iteration", logs, logs),
-                    got: format!("{} emits: {:?}", a.emits, a.emitted),
+                    got: format!("{} line(s): {:?}", log_lines(&a.out()), a.out()),
                     needs: "input-only".into(),
                 });
             }
@@ -949,9 +955,10 @@ pub fn oracle_level_checks(run: &E1Run, rng: &mut Rng, oracle: &mut Oracle) -> (
     if rng.chance(1, 2) {
         let op = *rng.pick(&applies);
         let a = oracle.query(op, ORACLE_STACK_KB);
-        if !a.emitted.is_empty() {
+        if !a.out().is_empty() && !a.res.is_panic() {
             n += 1;
-            let bad = !a.emitted.ends_with('\n') || a.emitted.lines().any(|l| serde_json::from_str::<Value>(l).is_err());
+            let text = a.out();
+            let bad = !text.ends_with('\n') || text.lines().any(|l| serde_json::from_str::<Value>(l).is_err());
             if bad {
                 v.push(Violation {
                     property: "C17".into(),
@@ -960,7 +967,7 @@ pub fn oracle_level_checks(run: &E1Run, rng: &mut Rng, oracle: &mut Oracle) -> (
                     op_idx: 0,
                     op: Some(op.clone()),
                     expected: "newline-terminated lines, each one JSON text".into(),
-                    got: format!("{:?}", a.emitted),
+                    got: format!("{:?}", a.out()),
                     needs: "input-only".into(),
                 });
             }
@@ -1050,6 +1057,10 @@ pub fn strip_logs(v: &Value) -> Value {
     json!({ key: new_args })
 }
 
+fn log_lines(emitted: &str) -> usize {
+    emitted.split_inclusive('\n').count()
+}
+
 /// (number of single-key {"log": ..} objects anywhere in the rule, whether any iteration operator key occurs)
 pub fn count_logs(v: &Value) -> (usize, bool) {
     match v {
@@ -1107,13 +1118,13 @@ pub fn recheck_oracle_level(target: &Violation, oracle: &mut Oracle) -> Vec<Viol
         let a = oracle.query(&plain, ORACLE_STACK_KB);
         let b = oracle.query(&op, ORACLE_STACK_KB);
         let expect_emitted = match &a.res {
-            Res::Ok(text) => format!("{}{}\n", a.emitted, text),
-            _ => a.emitted.clone(),
+            Res::Ok(text) => format!("{}{}\n", a.out(), text),
+            _ => a.out(),
         };
-        if a.res != b.res || b.emitted != expect_emitted {
+        if a.res != b.res || b.out() != expect_emitted {
             let mut t = target.clone();
             t.expected = format!("{} emitting {:?}", res_text(&a.res), expect_emitted);
-            t.got = format!("{} emitting {:?}", res_text(&b.res), b.emitted);
+            t.got = format!("{} emitting {:?}", res_text(&b.res), b.out());
             v.push(t);
         }
     } else if target.class == "log-changes-the-result" {
@@ -1121,7 +1132,12 @@ pub fn recheck_oracle_level(target: &Violation, oracle: &mut Oracle) -> Vec<Viol
             let plain = Op::apply(&strip_logs(&rule).to_string(), &op.args[1], false);
             let a = oracle.query(&op, ORACLE_STACK_KB);
             let b = oracle.query(&plain, ORACLE_STACK_KB);
-            if a.res != b.res {
+            let same = match (&a.res, &b.res) {
+                (Res::Ok(x), Res::Ok(y)) => x == y,
+                (Res::Err(_), Res::Err(_)) => true,
+                (x, y) => x == y,
+            };
+            if !same {
                 v.push(target.clone());
             }
         }
@@ -1129,13 +1145,14 @@ pub fn recheck_oracle_level(target: &Violation, oracle: &mut Oracle) -> Vec<Viol
         if let Ok(rule) = serde_json::from_str::<Value>(&op.args[0]) {
             let (logs, iterates) = count_logs(&rule);
             let a = oracle.query(&op, ORACLE_STACK_KB);
-            if !iterates && a.emits > logs as u64 {
+            if !iterates && log_lines(&a.out()) > logs {
                 v.push(target.clone());
             }
         }
     } else if target.class == "log-line-is-not-one-json-text" {
         let a = oracle.query(&op, ORACLE_STACK_KB);
-        if !a.emitted.is_empty() && (!a.emitted.ends_with('\n') || a.emitted.lines().any(|l| serde_json::from_str::<Value>(l).is_err())) {
+        let text = a.out();
+        if !text.is_empty() && (!text.ends_with('\n') || text.lines().any(|l| serde_json::from_str::<Value>(l).is_err())) {
             v.push(target.clone());
         }
     } else if target.class == "isolated-result-not-stable" {
